@@ -117,10 +117,10 @@ PATHABLE = ["equal_to", "not_equal_to", "less_than", "greater_than", "in_", "not
             "items_contain", "keys_contain_N_of", "has_factor"]
 
 
-def small_path(r, mods=True):
+def small_path(r, mods=True, jsonable=False):
     parts = []
     for _ in range(r.between(1, 3)):
-        parts.append(G.blind_part(r, "typed", cond_depth=1, labels=False, meaningful=True) if r.pct() < 25 else Prim(r.choice(["a", "b", 0, 1, "x y"])))
+        parts.append(G.blind_part(r, "typed", cond_depth=1, labels=False, meaningful=True, jsonable=jsonable) if r.pct() < 25 else Prim(r.choice(["a", "b", 0, 1, "x y"])))
     p = PathT(parts)
     if mods:
         conc = model.is_concrete(parts)
